@@ -170,3 +170,64 @@ func VerifC20Linearizable() {
 	nd.Assert(vLinearizable(all, make([]bool, len(all)), map[int]int{}, 0), "C20: every concurrent history of the map is equivalent to some sequential one")
 	nd.Cover("history checked")
 }
+
+// Range concurrent with a writer.  Range promises no snapshot, but every pair it hands to the
+// callback is a mapping that some caller stored (never an invented value), no key is visited
+// twice, and a key no concurrent operation touches is visited exactly once with its value.
+func VerifC20Range() {
+	m := New[int, int]()
+	m.Store(0, 10)
+	m.Store(1, 11)
+	kind, key := nd.Choose(4), nd.Choose(3) // writer: 0 Delete 1 Store 2 LoadOrStore 3 LoadOrStoreFn; key 2 is absent initially
+	type pair struct{ k, v int }
+	var seen []pair
+	var wg sync.WaitGroup
+	wg.Add(2)
+	go func() {
+		defer wg.Done()
+		m.Range(func(k, v int) bool {
+			seen = append(seen, pair{k, v})
+			// natively: the writer's operation happens while the first callback is running
+			nd.Barrier(3, 2)
+			nd.Barrier(4, 2)
+			return true
+		})
+	}()
+	go func() {
+		defer wg.Done()
+		defer nd.Barrier(4, 2)
+		nd.Barrier(3, 2)
+		switch kind {
+		case 0:
+			m.Delete(key)
+		case 1:
+			m.Store(key, 20)
+		case 2:
+			m.LoadOrStore(key, 20)
+		default:
+			m.LoadOrStoreFn(key, func() int { return 20 })
+		}
+	}()
+	wg.Wait()
+	initial := map[int]int{0: 10, 1: 11}
+	count := map[int]int{}
+	for _, p := range seen {
+		count[p.k]++
+		iv, had := initial[p.k]
+		legal := had && p.v == iv
+		if kind != 0 && p.k == key && p.v == 20 {
+			legal = true
+		}
+		nd.Assert(legal, "C20: Range hands out only mappings that some caller stored")
+	}
+	for k := 0; k < 3; k++ {
+		nd.Assert(count[k] <= 1, "C20: Range visits no key twice")
+		if _, had := initial[k]; had && k != key {
+			nd.Assert(count[k] == 1, "C20: a key no concurrent operation touches is visited exactly once")
+		}
+	}
+	if kind == 0 && key < 2 {
+		nd.Cover("Range concurrent with a Delete")
+	}
+	nd.Cover("range history checked")
+}
